@@ -32,6 +32,12 @@ MCPut == /\ G /\ nextVal <= MaxVal
                       DV(IF i # 0 THEN {order[i].v} ELSE {}))
                /\ Rec(Op("PUT", c, p, nextVal))
          /\ nextVal' = nextVal + 1
+\* no value destructor: the same value object again (also under the key object already stored), or NULL
+MCPutAgain == /\ G /\ ~dv /\ nextVal <= MaxVal /\ nextVal' = nextVal + 1     \* (counts against the same budget of puts)
+              /\ \E c \in Classes, p \in Ptrs, v \in {0} \cup {e.v : e \in All} :
+                    LET i == IdxOf(c) IN
+                    /\ Put(c, p, v, TRUE, DK(IF i # 0 /\ order[i].p # p THEN {KeyOf(order[i])} ELSE {}), <<>>)
+                    /\ Rec(Op("PUT", c, p, v))
 MCFind == G /\ UNCHANGED nextVal /\ \E c \in Classes, p \in Ptrs, v \in 0..MaxVal :
               Find(c, TRUE, v) /\ Rec(Op("FIND", c, p, 0))
 MCFindMove == G /\ UNCHANGED nextVal /\ \E c \in Classes, p \in Ptrs, v \in 0..MaxVal :
@@ -43,12 +49,16 @@ MCRemove == G /\ UNCHANGED nextVal /\ \E c \in Classes, p \in Ptrs :
 MCClear == G /\ UNCHANGED nextVal /\ Clear(DK({KeyOf(e) : e \in All}), DV({e.v : e \in All})) /\ Rec(Op("CLEAR", 0, 0, 0))
 MCMoveToEnd == G /\ UNCHANGED nextVal /\ \E c \in Classes : MoveToEnd(c, <<>>, <<>>) /\ Rec(Op("TOEND", c, 0, 0))
 
-MCNext == MCPut \/ MCFind \/ MCFindMove \/ MCRemove \/ MCClear \/ MCMoveToEnd
+MCNext == MCPut \/ MCPutAgain \/ MCFind \/ MCFindMove \/ MCRemove \/ MCClear \/ MCMoveToEnd
 MCSpec == MCInit /\ [][MCNext]_mcvars
 
 (* property clauses as checks on the model *)
 (* a put leaves its entry at the back, and is the only way the set of classes grows *)
 PutAtBack == [][MCPut => (Len(order') > 0 /\ order'[Len(order')].v = nextVal)]_mcvars
+(* also when key and value objects are the ones already stored: last afterwards, nothing else moved *)
+PutAgainAtBack == [][MCPutAgain => (Len(order') > 0 /\ \A c \in Classes :
+                        (Has(c) /\ order'[Len(order')].c # c) =>
+                            \E j \in 1..Len(order') : order'[j] = order[IdxOf(c)])]_mcvars
 (* every value that ever left the table has been destroyed exactly once (when a destructor is installed) *)
 DisplacedDestroyed == dv => vdead = (1..(nextVal - 1)) \ {e.v : e \in All}
 (* a key object's destructor count never exceeds the number of times it was displaced: it is in the table or not *)
